@@ -12,6 +12,10 @@ type Property struct {
 	Fset func(self, value Object) error
 	Fdel func(self Object) error
 	Doc  string
+	// the type whose dictionary holds the property (set when that
+	// type is made ready): its accessors are written for instances
+	// of this type only
+	objclass *Type
 }
 
 var PropertyType = NewType("property", "property object")
@@ -21,9 +25,22 @@ func (o *Property) Type() *Type {
 	return PropertyType
 }
 
+// check that instance is an object the accessors were written for
+// (descr_check in CPython): p.__get__(1, int) for a property of another
+// type is a TypeError
+func (p *Property) check(instance Object) error {
+	if p.objclass != nil && !instance.Type().IsSubtype(p.objclass) {
+		return ExceptionNewf(TypeError, "descriptor for '%s' objects doesn't apply to '%s' object", p.objclass.Name, instance.Type().Name)
+	}
+	return nil
+}
+
 func (p *Property) M__get__(instance, owner Object) (Object, error) {
 	if p.Fget == nil {
 		return nil, ExceptionNewf(AttributeError, "can't get attribute")
+	}
+	if err := p.check(instance); err != nil {
+		return nil, err
 	}
 	return p.Fget(instance)
 }
@@ -32,12 +49,18 @@ func (p *Property) M__set__(instance, value Object) (Object, error) {
 	if p.Fset == nil {
 		return nil, ExceptionNewf(AttributeError, "can't set attribute")
 	}
+	if err := p.check(instance); err != nil {
+		return nil, err
+	}
 	return None, p.Fset(instance, value)
 }
 
 func (p *Property) M__delete__(instance Object) (Object, error) {
 	if p.Fdel == nil {
 		return nil, ExceptionNewf(AttributeError, "can't delete attribute")
+	}
+	if err := p.check(instance); err != nil {
+		return nil, err
 	}
 	return None, p.Fdel(instance)
 }
